@@ -201,7 +201,7 @@ def outcome_of(x, mode):
         return UNUSUAL[x % len(UNUSUAL)]
     if mode == 3:
         if x % N_EXC == 3:
-            return 1 // 0
+            return 1 / 0
         raise make_exc(x % N_EXC)
     return fval(x)
 
@@ -243,8 +243,8 @@ def work_fit(args):
     rest = [a for a in args if not isinstance(a, fit_mod.Fitness)]
     jid, x, mode = rest
     _enter(jid)
-    if mode == 1:
-        raise WorkError(x)
+    if mode:
+        return outcome_of(x, mode)
     return fval(x) * 100 + (10 * len(pos) + pos[0] if pos else 99)
 
 
